@@ -63,3 +63,54 @@ def gen_scopes():
     c3 = c2.copy()
     for s in (root, c1, c2, c3, Scope()):
         yield ({'self': _view(s)}, {})
+
+
+# ---- the other Scope methods under contract (contracts/utils_scope.py) -----------------------
+def scope_get(self, key, default=None):
+    return self.scope.get(key, default)
+
+
+def scope_getitem(self, key):
+    return self.scope[key]
+
+
+def scope_contains(self, key):
+    return key in self.scope
+
+
+def scope_get_name(self, key):
+    return self.scope.get_name(key)
+
+
+def scope_set_global(self, name, value):
+    return self.scope.set_global(name, value)
+
+
+def scope_marker():
+    from chameleon import utils
+    return utils.marker
+
+
+def _chain():
+    from chameleon.utils import Scope
+    root = Scope({'a': 1, 'b': None})
+    c1 = root.copy()
+    c1['x'] = 3
+    c1['a'] = 'shadow'
+    c2 = c1.copy()
+    c2['y'] = 4
+    return [root, c1, c2, Scope()]
+
+
+def gen_scope_keys():
+    for i in range(4):
+        for key in ('a', 'b', 'x', 'y', 'missing'):
+            s = _chain()[i]
+            yield ({'self': _view(s), 'key': key, 'default': 'dflt'}, {})
+
+
+def gen_scope_globals():
+    for i in range(4):
+        for name in ('a', 'x', 'g'):
+            s = _chain()[i]
+            yield ({'self': _view(s), 'name': name, 'value': ('value', name)}, {})
